@@ -224,17 +224,25 @@ pub fn check_c02_case(ctx: &Ctx, e: &Entry, v: &Value, agg: &mut Agg) {
     refper::applicable_quirks(m, &d.ty, v, &mut applicable);
     let case = || case_json(e, v, 0, "c02");
     let mut explained_by_quirk = false;
+    let mut decode_although_refused = false;
     match impl_encode(e.ops, v, 0) {
         Err(p) => agg.fail(format!("encode-panic.{kind}"), case(), show_bits(&strict.bits), format!("panic: {p}")),
         Ok(Err((k, detail))) => {
             if k == "ExtensionFieldsInconsistent" {
                 agg.fail("documented.extension-fields-inconsistent".into(), case(), show_bits(&strict.bits), format!("Err({detail})"));
+                // the WRITER refuses this presence pattern; other encoders produce it and the reader must decode it
+                // (unless a recorded quirk applies to this value: then the reference bits are not what this reader expects)
+                if open_only(&applicable, "C02").is_empty() {
+                    decode_although_refused = true;
+                }
             } else if !open_only(&applicable, "C02").is_empty() {
                 agg.fail(format!("{}.encode-err", quirk_class(&open_only(&applicable, "C02"))), case(), show_bits(&strict.bits), format!("Err({detail})"));
             } else {
                 agg.fail(format!("encode-err.{kind}"), case(), show_bits(&strict.bits), format!("Err({detail})"));
             }
-            explained_by_quirk = true; // nothing to read back
+            if !decode_although_refused {
+                explained_by_quirk = true; // nothing to read back
+            }
         }
         Ok(Ok(bits)) => {
             if bits != strict.bits {
@@ -260,7 +268,16 @@ pub fn check_c02_case(ctx: &Ctx, e: &Entry, v: &Value, agg: &mut Agg) {
     if !explained_by_quirk {
         match impl_decode(e.ops, &strict.bits, 0) {
             Err(p) => agg.fail(format!("read-reference-panic.{kind}"), case(), v.short(), format!("panic: {p}")),
-            Ok(Err((_, detail))) => agg.fail(format!("read-reference-err.{kind}"), case(), v.short(), format!("Err({detail})")),
+            Ok(Err((_, detail))) => {
+                // the one recorded reader-side defect
+                let rq: Quirks = applicable.iter().copied().filter(|q| matches!(q, refper::Quirk::FragmentedOpenTypeNotReadable)).collect();
+                let rq = open_only(&rq, "C02");
+                if rq.is_empty() {
+                    agg.fail(format!("read-reference-err.{kind}"), case(), v.short(), format!("Err({detail})"))
+                } else {
+                    agg.fail(format!("{}.read-reference-err", quirk_class(&rq)), case(), v.short(), format!("Err({detail})"))
+                }
+            }
             Ok(Ok(dec)) => {
                 if dec.value != v.normalize() {
                     agg.fail(format!("read-reference-value.{kind}"), case(), v.short(), dec.value.short());
@@ -289,7 +306,7 @@ pub fn check_c01_case(ctx: &Ctx, e: &Entry, v: &Value, aligns: &[usize], agg: &m
     // the only recorded defects that break the round trip itself
     let known_rt: Vec<&str> = applicable
         .iter()
-        .filter(|q| matches!(q, refper::Quirk::NoListFragmentation))
+        .filter(|q| matches!(q, refper::Quirk::NoListFragmentation | refper::Quirk::FragmentedOpenTypeNotReadable))
         .map(|q| q.name())
         .collect();
     let cls = |kind_of_failure: &str| {
